@@ -158,6 +158,9 @@ func (s *SigBlob) VerifyPages(r io.Reader) error {
 		}
 		return nil
 	}
+	if dir.Header.PageSizeLog2 > maxPageSizeLog2 {
+		return fmt.Errorf("unsupported page size 2^%d", dir.Header.PageSizeLog2)
+	}
 	pageSize := int64(1 << dir.Header.PageSizeLog2)
 	page := make([]byte, pageSize)
 	h := dir.HashFunc.New()
